@@ -99,6 +99,19 @@ func (e *Env) WarmReports(shared bool) {
 	}
 }
 
+// Dump renders the objects' complete state without calling any library code.
+func (e *Env) Dump() string {
+	var b strings.Builder
+	for i := range e.E3 {
+		b.WriteString(dump.Of(e.E3[i]))
+		b.WriteString(dump.Of(e.E2[i]))
+	}
+	for i := range e.Rep {
+		b.WriteString(dump.Of(e.Rep[i]))
+	}
+	return b.String()
+}
+
 // Observe renders the shared objects' observables (for the end-state check).
 func (e *Env) Observe() string {
 	var b strings.Builder
